@@ -92,6 +92,7 @@ type Profile struct {
 	Supported bool // J5-supported subset only (C15): no unsupported kinds, no inconsistent annotations
 	MaxFiles  int
 	Comments  bool // attach leading comments (descriptions)
+	CrossPkg  bool // bias towards several files, a sub-package first, and references across files
 }
 
 // Case is one generated descriptor set.
@@ -138,7 +139,7 @@ func (g *gen) wild() bool          { return !g.p.Supported && g.r.Chance(g.p.Wil
 func (g *gen) chance(p int) bool   { return g.r.Chance(p) }
 func pick[T any](g *gen, xs []T) T { return xs[g.r.Intn(len(xs))] }
 
-var pkgNames = []string{"gen.a.v1", "gen.b.v1", "gen.a.v1.sub", "gen.c.v2"}
+var pkgNames = []string{"gen.a.v1", "gen.b.v1", "gen.a.v1.sub", "gen.c.v2", "gen.b.v1.topic", "gen.c.v2.service", "gen.d.v1.sandbox"}
 var msgNames = []string{"Foo", "Bar", "Baz", "Qux", "FooKeys", "FooState", "FooData", "FooEvent", "Foo_Bar", "Thing", "Wrapper", "Node", "Tree", "Item", "Bar_Kind"}
 var nestedNames = []string{"Bar", "Inner", "Kind", "Part", "Keys", "Leaf"}
 var enumNames = []string{"Kind", "Status", "Color", "Bar_Kind", "Mode"}
@@ -153,11 +154,17 @@ func Generate(r *vh.Rand, p Profile, deps []*descriptorpb.FileDescriptorProto) *
 	if p.MaxFiles > 1 && g.chance(45) {
 		nFiles = 1 + r.Intn(p.MaxFiles)
 	}
+	if p.CrossPkg && p.MaxFiles > 1 {
+		nFiles = 2 + r.Intn(p.MaxFiles-1)
+	}
 	usedPkg := map[string]int{}
 	for fi := 0; fi < nFiles; fi++ {
 		pkg := pkgNames[r.Intn(len(pkgNames))]
 		if fi == 0 {
 			pkg = pkgNames[r.Intn(2)]
+			if p.CrossPkg && g.chance(60) {
+				pkg = pick(g, []string{"gen.b.v1.topic", "gen.c.v2.service", "gen.d.v1.sandbox", "gen.a.v1.sub"})
+			}
 		}
 		usedPkg[pkg]++
 		path := fmt.Sprintf("%s/f%d.proto", dotToSlash(pkg), fi)
@@ -683,6 +690,17 @@ func (g *gen) pickType(sh *shell, fi int, f *descriptorpb.FieldDescriptorProto, 
 			return
 		}
 		t := pick(g, cands)
+		if g.p.CrossPkg && g.chance(45) {
+			var other []typeRef
+			for _, m := range cands {
+				if m.file != fi {
+					other = append(other, m)
+				}
+			}
+			if len(other) > 0 {
+				t = pick(g, other)
+			}
+		}
 		if g.chance(12) {
 			t = typeRef{full: sh.full, file: fi}
 			g.tag("self-reference")
@@ -742,8 +760,20 @@ func (g *gen) annotateMap(f, val *descriptorpb.FieldDescriptorProto) {
 		if g.wild() {
 			fc = g.validateFor(val, true) // not a map constraint at all
 		}
+		if g.wild() {
+			fc = &validate.FieldConstraints{Type: &validate.FieldConstraints_Repeated{Repeated: &validate.RepeatedRules{MinItems: proto.Uint64(1)}}}
+			if g.chance(50) {
+				fc.GetRepeated().Items = g.validateFor(val, false)
+			}
+			g.tag("validate-repeated-on-map")
+		}
 		if g.chance(20) {
 			fc.Required = proto.Bool(g.chance(70))
+		}
+		if g.chance(10) || (fc.GetRepeated() != nil && g.chance(50)) {
+			ig := validate.Ignore(g.r.Range(0, 3))
+			fc.Ignore = &ig
+			g.tag(fmt.Sprintf("validate-ignore-%d", int32(ig)))
 		}
 		proto.SetExtension(ensureOpts(f), validate.E_Field, fc)
 		g.tag("validate-map")
@@ -790,14 +820,35 @@ func (g *gen) annotate(f, typed *descriptorpb.FieldDescriptorProto, repeated boo
 			fc = &validate.FieldConstraints{Type: &validate.FieldConstraints_Repeated{Repeated: rr}}
 			g.tag("validate-repeated")
 		}
+		if !repeated && g.wild() {
+			// a container rule on a singular field, with or without items / values
+			switch g.r.Intn(4) {
+			case 0:
+				fc = &validate.FieldConstraints{Type: &validate.FieldConstraints_Repeated{Repeated: &validate.RepeatedRules{MinItems: proto.Uint64(1)}}}
+			case 1:
+				fc = &validate.FieldConstraints{Type: &validate.FieldConstraints_Repeated{Repeated: &validate.RepeatedRules{Items: fc}}}
+			case 2:
+				fc = &validate.FieldConstraints{Type: &validate.FieldConstraints_Map{Map: &validate.MapRules{MinPairs: proto.Uint64(1)}}}
+			case 3:
+				fc = &validate.FieldConstraints{Type: &validate.FieldConstraints_Map{Map: &validate.MapRules{Values: fc, Keys: &validate.FieldConstraints{}}}}
+			}
+			g.tag("validate-container-on-singular")
+		}
 		if g.chance(25) {
 			fc.Required = proto.Bool(g.chance(75))
 			g.tag("validate-required")
 		}
-		if g.chance(8) {
+		if g.chance(8) || (fc.GetRepeated() != nil && g.chance(35)) {
 			ig := validate.Ignore(g.r.Range(0, 3))
 			fc.Ignore = &ig
-			g.tag("validate-ignore")
+			g.tag(fmt.Sprintf("validate-ignore-%d", int32(ig)))
+			if fc.GetRepeated() != nil {
+				if fc.GetRepeated().Items == nil {
+					g.tag("validate-ignore-on-repeated-without-items")
+				} else {
+					g.tag("validate-ignore-on-repeated-with-items")
+				}
+			}
 		}
 		proto.SetExtension(ensureOpts(f), validate.E_Field, fc)
 	}
